@@ -73,6 +73,22 @@ def replay(check_id, path, quiet=False):
         rep = json.load(f)
     worker_init()
     mod = importlib.import_module("mc.checks." + check_id.lower())
+    if rep.get("history"):
+        # a violation that needs the cases its worker process had analysed before (a result depending on process history):
+        # they are re-run first, in order, in this one fresh process; their own results are not judged here
+        from .pool import CpuTimeout, tainted
+
+        for prev in rep["history"]:
+            try:
+                mod.run_case(prev)
+            except CpuTimeout:
+                pass
+            except Exception:
+                pass
+        if tainted():
+            if not quiet:
+                print("replay: a CPU limit was hit while re-running the history; nothing is judged")
+            return 0
     res = mod.run_case(rep["case"])
     subs = {v["sub"] for v in res.get("violations", [])}
     want = rep.get("sub")
@@ -165,6 +181,7 @@ def main(argv=None):
     counts = {"ok": 0, "violation": 0, "refusal": 0, "timeout": 0, "harness_error": 0, "crash": 0, "na": 0,
               "skipped_budget": 0}
     harness_errors = []
+    hists = {}
     tasks = [(check_id, c) for c in cases]
     # budget: stop handing out new work when the wall-clock budget is used up (reported as a cap)
     done_idx = set()
@@ -183,6 +200,8 @@ def main(argv=None):
                 samples.append(res["sample"])
             for v in res.get("violations", []):
                 viols.append((idx, v))
+            if res.get("_hist") is not None:
+                hists[idx] = res["_hist"]
             if st == "harness_error":
                 harness_errors.append({"case": cases[idx].get("input"), "error": res.get("error"),
                                        "trace": res.get("trace")})
@@ -198,6 +217,8 @@ def main(argv=None):
     reported = []
     known_hit = []
     unconfirmed = 0
+    attempts = 0
+    hist_attempts = 0
     viols.sort(key=lambda iv: iv[0])
     for idx, v in viols:
         case = cases[idx]
@@ -213,10 +234,34 @@ def main(argv=None):
         with open(path, "w") as f:
             json.dump({"property": check_id, "key": key, "case": case, "sub": v["sub"], "detail": v.get("detail")},
                       f, indent=1, default=str)
-        if getattr(mod, "CONFIRM_FRESH", True) and not confirm_fresh(check_id, path):
-            unconfirmed += 1
-            os.replace(path, path + ".unconfirmed")
-            continue
+        if getattr(mod, "CONFIRM_FRESH", True):
+            if attempts >= MAX_REPORT + 10:
+                unconfirmed += 1
+                os.remove(path)
+                continue
+            attempts += 1
+            if not confirm_fresh(check_id, path):
+                # not reproducible from a fresh process on its own: try with the history of its worker process (the cases that
+                # process had analysed before), shortest suffix first; reproduced twice in fresh processes = a real violation
+                # of this property in that history
+                hist = hists.get(idx) or []
+                ok = False
+                if hist and hist_attempts < 6:
+                    hist_attempts += 1
+                    lens = sorted({min(k, len(hist)) for k in (1, 2, 4, 8, 16, len(hist))})
+                    for k in lens:
+                        with open(path, "w") as f:
+                            json.dump({"property": check_id, "key": key, "case": case, "sub": v["sub"], "detail": v.get("detail"),
+                                       "history": [cases[j] for j in hist[-k:]],
+                                       "note": "needs the listed history: the cases analysed before it in the same process"},
+                                      f, indent=1, default=str)
+                        if confirm_fresh(check_id, path):
+                            ok = True
+                            break
+                if not ok:
+                    unconfirmed += 1
+                    os.replace(path, path + ".unconfirmed")
+                    continue
         reported.append(path)
     n_new = sum(1 for idx, v in viols if finding_key(check_id, cases[idx], v["sub"]) not in known
                 and ("site", check_id, v["sub"]) not in known)
